@@ -14,11 +14,15 @@ UNPROVED = [
     "C02.Beat.information_gain_self_statement: information gain(x, x) = 1 for >= 2 strictly increasing beats",
     "C02 p_score_self is stated in terms of the window / train length the code computes (pScoreParts), with the "
     "decidable side condition 0 <= win < N",
-    "C02 continuity_self is proved in the form 'whenever continuity(x, x) returns, it returns (1,1,1,1)'; that it "
-    "returns (no IndexError inside the metric-level variations) is covered by correspondence only",
-    "C04 pscore_correlation_spec: the model computes the windowed sum of the cross-correlation of the two 0/1 impulse "
-    "trains directly as a count of index pairs; np.correlate + Python slice = that count is tied by correspondence only",
-    "C04 histogram: each wrapped error lands in exactly one bin (sum of counts = number of finite errors) - not proved",
+    "C04 pscore: McKinney's pair count is proved for 0 <= win < N (always the case for thresholds in [0, 1]: "
+    "pscore_definition_unit_threshold); for win >= N the code wraps the slice start around (known finding, "
+    "pscore_correlation_full_false); the quantisation ceil((b - offset) * 100) itself is taken as the definition",
+    "C04 goto_definition describes the code as it is: the mean / std test runs over the track INCLUDING the two bounding "
+    "incorrect beats, and the all-correct branch drops the last inner beat; that the reading 'statistics over the correct "
+    "beats only' differs is proved (goto_correct_track_full_false) but not registered as a finding (the published "
+    "definition was not available offline to settle it)",
+    "C04 continuity_definition / goto_definition are about the metric bodies after validation (+ *_validated forms); "
+    "the float-accumulated comparisons of the real code are tied by correspondence on the exact lattice only",
     "C08 shift theorems are stated for the metric bodies after validation (validate rejects times > 30000 s, which is "
     "not shift invariant) and for evaluate's trimming separately (trim_shift)",
     "cemgil / information_gain theorems are about the real-number reading (realOps) of the same definitions the driver "
